@@ -214,3 +214,40 @@ def finish_args(c, extra_assumptions=()):
                      "destination kinds: bool, int, double, std::string, std::optional<int>, LevelCounter, the containers listed in DESIGN 3, value "
                      "arguments (DEST_VAR_VALUE on int) and pair arguments (DEST_PAIR with an int as second variable)"] + list(extra_assumptions)
     return c.finish()
+
+
+def constraint_web_blocks(g, n, nlines=14):
+    """Configurations of 6-9 flag / int arguments (all with both keys) tied by 3-6 requires / excludes constraints, each written
+    with a random form of the partner's key, plus sometimes a handler constraint; lines = random subsets of the arguments in
+    random order.  Whether a line obeys the rules is decided by the specification, not here (C02 and C03 both use the family)."""
+    r = g.r
+    blocks = []
+    for _ in range(n):
+        cfg = g.cfg(nargs=r.randint(6, 9), kinds=["flag", "flag", "int"], constraints=False, allow_pos=False)
+        used_s = {a["s"] for a in cfg["args"]}
+        used_l = {tuple(a["l"]) for a in cfg["args"]}
+        for x in cfg["args"]:
+            x["mand"] = False; x["card"] = {"t": "none", "a": 0, "b": 0}
+            if not x["s"]:
+                x["s"] = next(ord(ch) for ch in "ABCDEFGHJKLMN" if ord(ch) not in used_s); used_s.add(x["s"])
+            if not x["l"]:
+                x["l"] = next(T(w) for w in ("first", "second", "third", "fourth", "fifth", "sixth", "seventh", "eighth", "ninth") if tuple(T(w)) not in used_l)
+                used_l.add(tuple(x["l"]))
+        idx = list(range(1, len(cfg["args"]) + 1))
+        owners = r.sample(idx, r.randint(3, min(6, len(idx))))
+        for o in owners:
+            others = [j for j in idx if j != o]
+            cfg["args"][o - 1][r.choice(["req", "req", "exc"])] = r.sample(others, r.choice([1, 1, 2]))
+            cfg["args"][o - 1]["cspell"] = r.choice([0, 1, 2])
+        if r.random() < 0.3:
+            cfg["hcons"].append({"k": r.choice(["allOf", "anyOf", "oneOf"]), "args": sorted(r.sample(idx, 2)), "cspell": r.choice([0, 1, 2]), "grp": 0})
+        use = lambda i: [i, []] if cfg["args"][i - 1]["kind"] == "flag" else [i, [str(r.randint(0, 9))]]
+        acts = []
+        for _ in range(nlines):
+            order = r.sample(idx, r.randint(1, min(6, len(idx))))
+            line = [use(i) for i in order]
+            w = g.spell_line(cfg, line)
+            if w is not None:
+                acts.append(eval_action(w, tag={"k": "line", "line": line_json(line)}))
+        blocks.append((cfg, acts))
+    return blocks
